@@ -1,0 +1,14 @@
+//go:build verif
+// +build verif
+
+package executor
+
+import (
+	"com.tuntun.rangers/node/src/middleware/log"
+)
+
+// Verification hook (build tag "verif" only): exposes the unexported contract-data decoder.
+func VerifDecodeContractData(txData string) (*ContractRawData, string) {
+	e := &contractExecutor{logger: log.GetLoggerByIndex(log.TxLogConfig, "0")}
+	return e.decodeContractData(txData)
+}
